@@ -1,8 +1,823 @@
 package main
 
-// tryReplay and runReplayTest: reproduce a refuted obligation on the real code.
-// (first version: no executable replay is generated)
+// Replay: turn the solver's counterexample for a refuted obligation into
+// concrete Go inputs, run the REAL function on them through an in-package test
+// injected with `go test -overlay` (nothing is written to /repo), and evaluate
+// the violated clause there.
 
-func tryReplay(w *World, v violation) *replayRun { return nil }
+import (
+	"bytes"
+	"context"
+	"encoding/json"
+	"fmt"
+	"go/types"
+	"os"
+	"os/exec"
+	"path/filepath"
+	"regexp"
+	"sort"
+	"strconv"
+	"strings"
+	"time"
+)
 
-func runReplayTest(pkg, src string) (string, string) { return "", "skipped" }
+type modelOracle struct {
+	query   string
+	solver  string
+	known   map[string]uint64
+	pending map[string]bool
+	decl    map[string]bool
+	err     string
+}
+
+var declRe = regexp.MustCompile(`\(declare-fun ([^ ]+) `)
+
+func newOracle(o *Obligation) *modelOracle {
+	m := &modelOracle{query: o.Query, solver: strings.TrimSuffix(strings.TrimSuffix(o.Solver, "(dup)"), "+inst"),
+		known: map[string]uint64{}, pending: map[string]bool{}, decl: map[string]bool{}}
+	for _, d := range declRe.FindAllStringSubmatch(o.Query, -1) {
+		m.decl[d[1]] = true
+	}
+	return m
+}
+
+var lenSymRe = regexp.MustCompile(`\(declare-fun ([^ ]*\.(?:len|cap)![0-9]+) \(\) \(_ BitVec 64\)\)`)
+
+// shrink looks for a counterexample with small slices: the same query with all
+// slice lengths bounded; the first bound that is still satisfiable is kept.
+func (m *modelOracle) shrink() {
+	var syms []string
+	for _, d := range lenSymRe.FindAllStringSubmatch(m.query, -1) {
+		syms = append(syms, d[1])
+	}
+	if len(syms) == 0 {
+		return
+	}
+	var sp solverSpec
+	for _, s := range solvers {
+		if s.name == m.solver {
+			sp = s
+		}
+	}
+	if sp.bin == "" {
+		sp = solvers[0]
+	}
+	dir, err := os.MkdirTemp("", "pvc-shrink-")
+	if err != nil {
+		return
+	}
+	defer os.RemoveAll(dir)
+	for _, bound := range []int{4, 16, 64, 512} {
+		var extra strings.Builder
+		for _, s := range syms {
+			fmt.Fprintf(&extra, "(assert (bvule %s (_ bv%d 64)))\n", s, bound)
+		}
+		q := strings.Replace(m.query, "(check-sat)\n", extra.String()+"(check-sat)\n", 1)
+		file := filepath.Join(dir, fmt.Sprintf("s%d.smt2", bound))
+		os.WriteFile(file, []byte(q), 0o644)
+		// any solver may answer
+		for _, try := range append([]solverSpec{sp}, solvers...) {
+			r := runSolver(context.Background(), try, file, 10000, 0)
+			if r.status == "sat" {
+				m.query = q
+				m.solver = try.name
+				return
+			}
+			if r.status == "unsat" {
+				break
+			}
+		}
+	}
+}
+
+// val returns the model value of a bit-vector/bool term (0 until it is known).
+func (m *modelOracle) val(t Term) uint64 {
+	if t.IsC {
+		return t.C
+	}
+	if v, ok := m.known[t.S]; ok {
+		return v
+	}
+	// terms over symbols the query does not declare are unconstrained
+	for _, sym := range symRe.FindAllString(t.S, -1) {
+		if (strings.Contains(sym, "!") || strings.HasPrefix(sym, "mem$")) && !m.decl[sym] && !strings.HasPrefix(sym, "$d") {
+			m.known[t.S] = 0
+			return 0
+		}
+	}
+	m.pending[t.S] = true
+	return 0
+}
+
+func parseBVValue(n *sx) (uint64, bool) {
+	if n.isAtom() {
+		switch {
+		case n.atom == "true":
+			return 1, true
+		case n.atom == "false":
+			return 0, true
+		case strings.HasPrefix(n.atom, "#x"):
+			s := n.atom[2:]
+			if len(s) > 16 {
+				s = s[len(s)-16:]
+			}
+			v, err := strconv.ParseUint(s, 16, 64)
+			return v, err == nil
+		case strings.HasPrefix(n.atom, "#b"):
+			s := n.atom[2:]
+			if len(s) > 64 {
+				s = s[len(s)-64:]
+			}
+			v, err := strconv.ParseUint(s, 2, 64)
+			return v, err == nil
+		}
+		return 0, false
+	}
+	if len(n.list) == 3 && n.list[0].atom == "_" && strings.HasPrefix(n.list[1].atom, "bv") {
+		v, err := strconv.ParseUint(n.list[1].atom[2:], 10, 64)
+		return v, err == nil
+	}
+	return 0, false
+}
+
+// resolve asks the solver for the pending terms (the values already known are
+// pinned so that successive calls see one model).
+func (m *modelOracle) resolve() bool {
+	if len(m.pending) == 0 {
+		return false
+	}
+	var terms []string
+	for t := range m.pending {
+		terms = append(terms, t)
+	}
+	sort.Strings(terms)
+	m.pending = map[string]bool{}
+	var sp solverSpec
+	for _, s := range solvers {
+		if s.name == m.solver {
+			sp = s
+		}
+	}
+	if sp.bin == "" {
+		sp = solvers[0]
+	}
+	q := strings.Replace(m.query, "(check-sat)\n", "", 1)
+	if sp.bin == "cvc5" {
+		q = "(set-option :produce-models true)\n" + q
+	}
+	var pins []string
+	for t, v := range m.known {
+		if strings.HasPrefix(t, "(") || m.decl[t] {
+			// pin only bit-vector valued terms whose width is evident: declared constants
+			if m.decl[t] {
+				_ = v
+			}
+		}
+	}
+	_ = pins
+	q += "(check-sat)\n(get-value (" + strings.Join(terms, " ") + "))\n"
+	dir, err := os.MkdirTemp("", "pvc-model-")
+	if err != nil {
+		m.err = err.Error()
+		return false
+	}
+	defer os.RemoveAll(dir)
+	file := filepath.Join(dir, "m.smt2")
+	os.WriteFile(file, []byte(q), 0o644)
+	r := runSolver(context.Background(), sp, file, 30000, 0)
+	out := r.out
+	i := strings.Index(out, "((")
+	if r.status != "sat" || i < 0 {
+		m.err = "model query failed: " + strings.TrimSpace(out)
+		for _, t := range terms {
+			m.known[t] = 0
+		}
+		return false
+	}
+	tree := parseSx(out[i:])
+	got := 0
+	if tree != nil {
+		for _, pair := range tree.list {
+			if len(pair.list) != 2 {
+				continue
+			}
+			if v, ok := parseBVValue(pair.list[1]); ok {
+				m.known[pair.list[0].String()] = v
+				got++
+			}
+		}
+	}
+	// terms the parser could not match textually: map by position
+	if tree != nil && len(tree.list) == len(terms) {
+		for k, pair := range tree.list {
+			if len(pair.list) == 2 {
+				if v, ok := parseBVValue(pair.list[1]); ok {
+					m.known[terms[k]] = v
+				}
+			}
+		}
+	}
+	for _, t := range terms {
+		if _, ok := m.known[t]; !ok {
+			m.known[t] = 0
+		}
+	}
+	return true
+}
+
+// -------------------------------------------------------------------------
+
+type materializer struct {
+	x       *Exec
+	m       *modelOracle
+	entry   *State
+	pkg     *types.Package
+	imports map[string]string // path -> name
+	partial []string
+	maxLen  int64
+}
+
+func (g *materializer) qual(p *types.Package) string {
+	if p == g.pkg {
+		return ""
+	}
+	g.imports[p.Path()] = p.Name()
+	return p.Name()
+}
+
+func (g *materializer) typeStr(t types.Type) string { return types.TypeString(t, g.qual) }
+
+func lit64(v uint64) Term { return BVLit(v, 64) }
+
+// entryRead is the entry-state value of a leaf at a concrete (region, offset).
+func (g *materializer) entryRead(name string, srt Sort, rgn, off uint64) uint64 {
+	memT := Term{S: lazyMemName(name, 0), Sort: outerSort(srt)}
+	return g.m.val(Select(Select(memT, lit64(rgn)), lit64(off)))
+}
+
+func signedStr(v uint64, w int) string { return strconv.FormatInt(sext(v, w), 10) }
+
+// value renders a Go expression for the value of type t whose leaves are given
+// by leafVal (called with the leaf path).
+func (g *materializer) value(t types.Type, leafVal func(path string, srt Sort) uint64, prefixForArrays func(path string) (uint64, bool), path string, depth int) string {
+	if depth > 6 {
+		g.partial = append(g.partial, "nesting too deep at "+path)
+		return "*new(" + g.typeStr(t) + ")"
+	}
+	ts := g.typeStr(t)
+	switch u := t.Underlying().(type) {
+	case *types.Basic:
+		switch {
+		case u.Info()&types.IsBoolean != 0:
+			if leafVal(path, SBool) != 0 {
+				return ts + "(true)"
+			}
+			return ts + "(false)"
+		case u.Info()&types.IsInteger != 0:
+			w := int(g.x.sizes.Sizeof(u)) * 8
+			v := leafVal(path, BV(w))
+			if u.Info()&types.IsUnsigned != 0 {
+				return fmt.Sprintf("%s(%d)", ts, v&mask(w))
+			}
+			return fmt.Sprintf("%s(%s)", ts, signedStr(v, w))
+		case u.Info()&types.IsString != 0:
+			g.partial = append(g.partial, "string "+path+" replaced by \"\"")
+			return ts + `("")`
+		}
+	case *types.Slice:
+		rgn := leafVal(path+".rgn", SBV64)
+		off := leafVal(path+".off", SBV64)
+		ln := int64(leafVal(path+".len", SBV64))
+		if rgn == 0 {
+			return ts + "(nil)"
+		}
+		if ln < 0 || ln > 1<<16 {
+			g.partial = append(g.partial, fmt.Sprintf("slice %s has length %d: not materialised", path, ln))
+			return "PVC_TOO_LARGE"
+		}
+		if ln > g.maxLen {
+			g.maxLen = ln
+		}
+		et := u.Elem()
+		var elems []string
+		for i := int64(0); i < ln; i++ {
+			idx := off + uint64(i)
+			elems = append(elems, g.value(et, func(p string, srt Sort) uint64 {
+				return g.entryRead(memName(et)+p, srt, rgn, idx)
+			}, nil, "", depth+1))
+		}
+		if b, ok := et.Underlying().(*types.Basic); ok && b.Kind() == types.Uint8 && types.Identical(et, types.Typ[types.Uint8]) {
+			// compact byte literal
+			var sb strings.Builder
+			sb.WriteString(ts + "{")
+			for i := int64(0); i < ln; i++ {
+				if i > 0 {
+					sb.WriteString(", ")
+				}
+				fmt.Fprintf(&sb, "%d", g.entryRead("uint8", BV(8), rgn, off+uint64(i))&0xff)
+			}
+			sb.WriteString("}")
+			return sb.String()
+		}
+		return ts + "{" + strings.Join(elems, ", ") + "}"
+	case *types.Pointer:
+		rgn := leafVal(path+".rgn", SBV64)
+		off := leafVal(path+".off", SBV64)
+		if rgn == 0 {
+			return "(" + ts + ")(nil)"
+		}
+		et := u.Elem()
+		if _, ok := et.Underlying().(*types.Struct); !ok {
+			inner := g.value(et, func(p string, srt Sort) uint64 {
+				return g.entryRead(memName(et)+p, srt, rgn, off)
+			}, nil, "", depth+1)
+			return fmt.Sprintf("func() %s { v := %s; return &v }()", ts, inner)
+		}
+		inner := g.value(et, func(p string, srt Sort) uint64 {
+			return g.entryRead(memName(et)+p, srt, rgn, off)
+		}, nil, "", depth+1)
+		return "&" + inner
+	case *types.Struct:
+		var fs []string
+		for i := 0; i < u.NumFields(); i++ {
+			f := u.Field(i)
+			if f.Name() == "_" {
+				continue
+			}
+			if !f.Exported() && f.Pkg() != g.pkg {
+				g.partial = append(g.partial, "unexported field "+path+"."+f.Name()+" left zero")
+				continue
+			}
+			switch f.Type().Underlying().(type) {
+			case *types.Interface, *types.Signature, *types.Map, *types.Chan, *types.Array:
+				g.partial = append(g.partial, "field "+path+"."+f.Name()+" of unsupported type left zero")
+				continue
+			}
+			fs = append(fs, f.Name()+": "+g.value(f.Type(), leafVal, prefixForArrays, path+"."+f.Name(), depth+1))
+		}
+		return ts + "{" + strings.Join(fs, ", ") + "}"
+	}
+	g.partial = append(g.partial, "value of type "+ts+" at "+path+" left zero")
+	return "*new(" + ts + ")"
+}
+
+// paramExpr renders the entry value of a symbolic parameter.
+func (g *materializer) paramExpr(t types.Type, v Value) string {
+	var leafTerms = map[string]Term{}
+	func() {
+		defer func() { recover() }()
+		g.x.walk(t, v, "", func(l leaf, tm Term) { leafTerms[l.path] = tm }, nil)
+	}()
+	return g.value(t, func(p string, srt Sort) uint64 {
+		tm, ok := leafTerms[p]
+		if !ok {
+			g.partial = append(g.partial, "no symbolic leaf for "+p)
+			return 0
+		}
+		return g.m.val(tm)
+	}, nil, "", 0)
+}
+
+const replayHelpers = `
+var pvcDomain []int64
+
+func pvc_implies(a, b bool) bool { return !a || b }
+func pvc_iff(a, b bool) bool     { return a == b }
+func pvc_old[T any](x T) T       { return x }
+func pvc_assert(b bool)          {}
+func pvc_assume(b bool)          {}
+func pvc_havoc[T any](x *T)      {}
+
+func pvcQuant(f interface{}, all bool) (res bool) {
+	defer func() {
+		if r := recover(); r != nil {
+			// an out-of-range read inside the body: treat the instance as vacuous
+			res = all
+		}
+	}()
+	fv := pvcreflect.ValueOf(f)
+	n := fv.Type().NumIn()
+	args := make([]pvcreflect.Value, n)
+	var rec func(k int) bool
+	rec = func(k int) bool {
+		if k == n {
+			ok := func() (ok bool) {
+				defer func() {
+					if r := recover(); r != nil {
+						ok = all
+					}
+				}()
+				return fv.Call(args)[0].Bool()
+			}()
+			return ok
+		}
+		for _, d := range pvcDomain {
+			v := pvcreflect.New(fv.Type().In(k)).Elem()
+			switch v.Kind() {
+			case pvcreflect.Int, pvcreflect.Int8, pvcreflect.Int16, pvcreflect.Int32, pvcreflect.Int64:
+				v.SetInt(d)
+			case pvcreflect.Uint, pvcreflect.Uint8, pvcreflect.Uint16, pvcreflect.Uint32, pvcreflect.Uint64, pvcreflect.Uintptr:
+				if d < 0 {
+					continue
+				}
+				v.SetUint(uint64(d))
+			default:
+				return all
+			}
+			args[k] = v
+			r := rec(k + 1)
+			if all && !r {
+				return false
+			}
+			if !all && r {
+				return true
+			}
+		}
+		return all
+	}
+	return rec(0)
+}
+
+func pvc_forall[F any](f F) bool { return pvcQuant(f, true) }
+func pvc_exists[F any](f F) bool { return pvcQuant(f, false) }
+
+func pvcClone[T any](v T) T {
+	return pvcCloneValue(pvcreflect.ValueOf(&v).Elem(), 0).Interface().(T)
+}
+
+func pvcCloneValue(v pvcreflect.Value, depth int) pvcreflect.Value {
+	out := pvcreflect.New(v.Type()).Elem()
+	if depth > 8 {
+		out.Set(v)
+		return out
+	}
+	switch v.Kind() {
+	case pvcreflect.Slice:
+		if v.IsNil() {
+			return out
+		}
+		out = pvcreflect.MakeSlice(v.Type(), v.Len(), v.Cap())
+		for i := 0; i < v.Len(); i++ {
+			out.Index(i).Set(pvcCloneValue(v.Index(i), depth+1))
+		}
+		return out
+	case pvcreflect.Ptr:
+		if v.IsNil() {
+			return out
+		}
+		p := pvcreflect.New(v.Type().Elem())
+		p.Elem().Set(pvcCloneValue(v.Elem(), depth+1))
+		return p
+	case pvcreflect.Struct:
+		out.Set(v)
+		for i := 0; i < v.NumField(); i++ {
+			f := out.Field(i)
+			if !f.CanSet() {
+				f = pvcreflect.NewAt(f.Type(), pvcunsafe.Pointer(f.UnsafeAddr())).Elem()
+			}
+			src := v.Field(i)
+			if !src.CanInterface() {
+				if !src.CanAddr() {
+					continue
+				}
+				src = pvcreflect.NewAt(src.Type(), pvcunsafe.Pointer(src.UnsafeAddr())).Elem()
+			}
+			switch src.Kind() {
+			case pvcreflect.Slice, pvcreflect.Ptr, pvcreflect.Struct:
+				f.Set(pvcCloneValue(src, depth+1))
+			}
+		}
+		return out
+	}
+	out.Set(v)
+	return out
+}
+`
+
+var oldCallRe = regexp.MustCompile(`pvc_old\(`)
+
+// rewriteOld replaces pvc_old(E) by E with parameter names renamed to their
+// pre-call clones.
+func rewriteOld(text string, params []string) string {
+	for {
+		loc := oldCallRe.FindStringIndex(text)
+		if loc == nil {
+			return text
+		}
+		depth := 0
+		end := -1
+		for i := loc[1] - 1; i < len(text); i++ {
+			if text[i] == '(' {
+				depth++
+			} else if text[i] == ')' {
+				depth--
+				if depth == 0 {
+					end = i
+					break
+				}
+			}
+		}
+		if end < 0 {
+			return text
+		}
+		inner := text[loc[1]:end]
+		m := map[string]string{}
+		for _, p := range params {
+			m[p] = p + "__old"
+		}
+		text = text[:loc[0]] + "(" + substIdents(inner, m) + ")" + text[end+1:]
+	}
+}
+
+func tryReplay(w *World, v violation) *replayRun {
+	o := v.obl
+	c := v.fn.Contract
+	rr := &replayRun{}
+	skip := func(why string) *replayRun {
+		rr.Outcome, rr.Why = "skipped", why
+		return rr
+	}
+	if o == nil || o.Run == nil || o.Query == "" {
+		return skip("no model available")
+	}
+	if c.Opaque {
+		return skip("keys are opaque in this contract: the model has no concrete bytes")
+	}
+	var callExpr string
+	for _, d := range c.Block.Dirs {
+		if d.Kind == "replaycall" {
+			callExpr = d.Expr
+		}
+	}
+	if c.Decl == nil && callExpr == "" {
+		return skip("function literal without a replay-call directive")
+	}
+	safety := map[string]bool{"index": true, "slice": true, "nil": true, "div": true, "make": true, "panic": true, "shift": true}
+	if o.Kind != "ensures" && !safety[o.Kind] {
+		return skip("obligations of kind " + o.Kind + " have no executable replay")
+	}
+	run := o.Run
+	x := run.x
+	m := newOracle(o)
+	m.shrink()
+	pkg := c.Pkg.Types
+	g := &materializer{x: x, m: m, entry: run.entry, pkg: pkg, imports: map[string]string{}}
+	sig := run.sig
+	type pv struct {
+		name string
+		t    types.Type
+		v    Value
+	}
+	var params []pv
+	if sig.Recv() != nil && run.recv != nil {
+		n := sig.Recv().Name()
+		if n == "" || n == "_" {
+			n = "pvcRecv"
+		}
+		params = append(params, pv{n, sig.Recv().Type(), run.recv})
+	}
+	for i := 0; i < sig.Params().Len(); i++ {
+		p := sig.Params().At(i)
+		n := p.Name()
+		if n == "" || n == "_" {
+			n = fmt.Sprintf("pvcArg%d", i)
+		}
+		switch p.Type().Underlying().(type) {
+		case *types.Signature, *types.Interface, *types.Map, *types.Chan:
+			return skip("parameter " + n + " has a type the replay cannot construct")
+		}
+		if i < len(run.args) {
+			params = append(params, pv{n, p.Type(), run.args[i]})
+		}
+	}
+	var exprs []string
+	for round := 0; round < 8; round++ {
+		exprs = exprs[:0]
+		g.partial = nil
+		g.maxLen = 0
+		for _, p := range params {
+			exprs = append(exprs, g.paramExpr(p.t, p.v))
+		}
+		if !m.resolve() {
+			break
+		}
+	}
+	if m.err != "" {
+		return skip(m.err)
+	}
+	for _, e := range exprs {
+		if strings.Contains(e, "PVC_TOO_LARGE") {
+			return skip("replay-skipped: allocation (" + strings.Join(g.partial, "; ") + ")")
+		}
+	}
+	// the test
+	var b strings.Builder
+	var names []string
+	recvName := ""
+	for i, p := range params {
+		fmt.Fprintf(&b, "\t%s := %s\n\t_ = %s\n", p.name, exprs[i], p.name)
+		fmt.Fprintf(&b, "\t%s__old := pvcClone(%s)\n\t_ = %s__old\n", p.name, p.name, p.name)
+		names = append(names, p.name)
+		if i == 0 && sig.Recv() != nil && run.recv != nil {
+			recvName = p.name
+		}
+	}
+	var argNames []string
+	for i, p := range params {
+		if i == 0 && recvName != "" {
+			continue
+		}
+		argNames = append(argNames, p.name)
+	}
+	if sig.Variadic() && len(argNames) > 0 {
+		argNames[len(argNames)-1] += "..."
+	}
+	call := ""
+	switch {
+	case callExpr != "":
+		call = callExpr + "(" + strings.Join(argNames, ", ") + ")"
+	case recvName != "":
+		call = recvName + "." + c.Block.Name + "(" + strings.Join(argNames, ", ") + ")"
+	default:
+		call = c.Block.Name + "(" + strings.Join(argNames, ", ") + ")"
+	}
+	// results
+	var lhs []string
+	var decls strings.Builder
+	for k := 0; k < sig.Results().Len(); k++ {
+		rv := sig.Results().At(k)
+		if k < len(c.Results) && c.Results[k] != rv {
+			lhs = append(lhs, c.Results[k].Name()) // synthetic package-level variable
+		} else if rv.Name() != "" && rv.Name() != "_" {
+			fmt.Fprintf(&decls, "\tvar %s %s\n\t_ = %s\n", rv.Name(), g.typeStr(rv.Type()), rv.Name())
+			lhs = append(lhs, rv.Name())
+		} else {
+			lhs = append(lhs, "_")
+		}
+	}
+	b.WriteString(decls.String())
+	if len(lhs) > 0 {
+		fmt.Fprintf(&b, "\t%s = %s\n", strings.Join(lhs, ", "), call)
+	} else {
+		fmt.Fprintf(&b, "\t%s\n", call)
+	}
+	b.WriteString("\tfmt.Println(\"PVC-REPLAY returned\")\n")
+	if o.Kind == "ensures" && o.CExpr != nil {
+		rw, err := RewriteExpr(o.CExpr.Dir.Expr)
+		if err != nil {
+			return skip("cannot rewrite the clause: " + err.Error())
+		}
+		subst := map[string]string{}
+		for k := range c.Results {
+			name := c.Results[k].Name()
+			subst[fmt.Sprintf("result%d", k)] = name
+			if len(c.Results) == 1 {
+				subst["result"] = name
+			}
+		}
+		rw = substIdents(rw, subst)
+		rw = substIdents(rw, map[string]string{"old": "pvc_old"})
+		rw = rewriteOld(rw, names)
+		fmt.Fprintf(&b, "\tfmt.Println(\"PVC-REPLAY clause:\", %s)\n", rw)
+	}
+	var dom []string
+	for d := int64(-2); d <= g.maxLen+2 && d < 300; d++ {
+		dom = append(dom, strconv.FormatInt(d, 10))
+	}
+	var imps strings.Builder
+	imps.WriteString("\t\"fmt\"\n\t\"testing\"\n")
+	var ipaths []string
+	for p := range g.imports {
+		ipaths = append(ipaths, p)
+	}
+	sort.Strings(ipaths)
+	for _, p := range ipaths {
+		if p == "fmt" || p == "testing" {
+			continue
+		}
+		fmt.Fprintf(&imps, "\t%s %q\n", g.imports[p], p)
+	}
+	test := fmt.Sprintf(`//go:build verif
+
+package %s
+
+import (
+%s)
+
+// Generated by pvc: replay of the counterexample for
+//   %s
+func TestPVCReplay(t *testing.T) {
+	pvcDomain = []int64{%s}
+	defer func() {
+		if r := recover(); r != nil {
+			fmt.Printf("PVC-REPLAY panic: %%v\n", r)
+		}
+	}()
+%s}
+`, pkg.Name(), imps.String(), o.Name, strings.Join(dom, ", "), b.String())
+	rr.Package = c.Pkg.PkgPath
+	rr.TestSrc = test
+	if len(g.partial) > 0 {
+		rr.Why = "partial inputs: " + strings.Join(g.partial, "; ")
+	}
+	out, outcome := runReplayTestFor(w, c, test)
+	rr.Output = out
+	rr.Cmd = "go test -tags verif -overlay <overlay.json> -vet=off -count=1 -timeout 120s -run ^TestPVCReplay$ " + c.Pkg.PkgPath
+	switch {
+	case outcome != "ran":
+		rr.Outcome = "error"
+	case safety[o.Kind]:
+		if strings.Contains(out, "PVC-REPLAY panic:") {
+			rr.Outcome = "confirmed"
+		} else {
+			rr.Outcome = "not-reproduced"
+		}
+	default:
+		if strings.Contains(out, "PVC-REPLAY clause: false") || strings.Contains(out, "PVC-REPLAY panic:") {
+			rr.Outcome = "confirmed"
+		} else {
+			rr.Outcome = "not-reproduced"
+		}
+	}
+	return rr
+}
+
+// replayGenFile is the executable variant of the synthetic file of a package.
+func replayGenFile(cf *ContractFile) string {
+	src, _, _ := synthFile(cf)
+	i := strings.Index(src, synthHelpers)
+	if i < 0 {
+		return src
+	}
+	src = src[:i] + replayHelpers + src[i+len(synthHelpers):]
+	// imports for the helpers
+	if strings.Contains(src, "import (") {
+		src = strings.Replace(src, "import (", "import (\n\tpvcreflect \"reflect\"\n\tpvcunsafe \"unsafe\"", 1)
+	} else {
+		src = strings.Replace(src, "package "+cf.Package+"\n", "package "+cf.Package+"\n\nimport (\n\tpvcreflect \"reflect\"\n\tpvcunsafe \"unsafe\"\n)\n", 1)
+	}
+	return src
+}
+
+func runReplayTestFor(w *World, c *Contract, test string) (string, string) {
+	return runReplayFiles(c.CF.Dir, c.Pkg.PkgPath, replayGenFile(c.CF), test)
+}
+
+func runReplayFiles(pkgDir, pkgPath, gen, test string) (string, string) {
+	dir, err := os.MkdirTemp("", "pvc-replay-")
+	if err != nil {
+		return err.Error(), "error"
+	}
+	defer os.RemoveAll(dir)
+	genPath := filepath.Join(dir, "gen.go")
+	testPath := filepath.Join(dir, "replay_test.go")
+	os.WriteFile(genPath, []byte(gen), 0o644)
+	os.WriteFile(testPath, []byte(test), 0o644)
+	ov := map[string]map[string]string{"Replace": {
+		filepath.Join(pkgDir, "zz_verif_gen.go"):         genPath,
+		filepath.Join(pkgDir, "zz_pvc_replay_test.go"):   testPath,
+	}}
+	data, _ := json.Marshal(ov)
+	ovPath := filepath.Join(dir, "overlay.json")
+	os.WriteFile(ovPath, data, 0o644)
+	ctx, cancel := context.WithTimeout(context.Background(), 15*time.Minute)
+	defer cancel()
+	cmd := exec.CommandContext(ctx, "go", "test", "-tags", "verif", "-overlay", ovPath, "-vet=off", "-count=1", "-v", "-timeout", "120s", "-run", "^TestPVCReplay$", pkgPath)
+	cmd.Dir = repoRoot
+	cmd.Env = goEnv()
+	var out bytes.Buffer
+	cmd.Stdout = &out
+	cmd.Stderr = &out
+	err = cmd.Run()
+	s := out.String()
+	if len(s) > 20000 {
+		s = s[:20000] + "\n...[truncated]"
+	}
+	if !strings.Contains(s, "PVC-REPLAY") {
+		return s, "error"
+	}
+	return s, "ran"
+}
+
+// runReplayTest re-executes a stored replay (./check replay <file>).
+func runReplayTest(pkg, src string) (string, string) {
+	files, _ := findContractFiles(repoRoot)
+	for _, f := range files {
+		rel, _ := filepath.Rel(repoRoot, filepath.Dir(f))
+		if repoModule+"/"+rel == pkg || (rel == "." && pkg == repoModule) {
+			cf, err := ParseContractFile(f)
+			if err != nil {
+				return err.Error(), "error"
+			}
+			out, st := runReplayFiles(cf.Dir, pkg, replayGenFile(cf), src)
+			if st != "ran" {
+				return out, "error"
+			}
+			if strings.Contains(out, "PVC-REPLAY clause: false") || strings.Contains(out, "PVC-REPLAY panic:") {
+				return out, "confirmed"
+			}
+			return out, "not-reproduced"
+		}
+	}
+	return "no contract file for package " + pkg, "error"
+}
